@@ -40,7 +40,7 @@ def expectation(meta, label_addr=None):
     if label_addr is not None:
         base = label_addr
         delta = {"mem+1": 1, "mem-1": -1, "imm+1": 2, "extind+1": 1, "idxlbl+1": 1}.get(meta["form"], 0)
-        v = base + delta
+        v = (base + delta) % 65536       # label - constant below address 0 is reduced modulo 65536 (C04 allows it; fix 1477b47)
         form = {"mem+1": "mem", "mem-1": "mem", "imm+1": "imm", "extind+1": "extind", "idxlbl": "idxsym", "idxlbl+1": "idxsym"}.get(meta["form"], meta["form"])
         if meta["form"] in ("idxlbl", "idxlbl+1"):
             meta = dict(meta, reg="X")
